@@ -342,3 +342,193 @@ def no_mutation_while_iterating(chk, rule, rels, floor=None):
     if floor:
         chk.floor(rule, floor, 'loops over a named container')
     return n
+
+
+# ---------------------------------------------------------------------------------------------------------------------
+# reachability under a valuation of pure predicates ("S runs only when P holds" / "S can run when P holds")
+_NEGOP = {ast.Lt: ast.GtE, ast.GtE: ast.Lt, ast.Gt: ast.LtE, ast.LtE: ast.Gt, ast.Eq: ast.NotEq, ast.NotEq: ast.Eq,
+          ast.In: ast.NotIn, ast.NotIn: ast.In, ast.Is: ast.IsNot, ast.IsNot: ast.Is}
+
+
+def eval3(e, val):
+    """True / False / None (unknown) of test expression e under `val`: {normalised predicate text: bool}.  A
+    comparison is also recognised through its negated spelling (`a < b` when `a >= b` is an atom)."""
+    t = norm(e)
+    if t in val:
+        return val[t]
+    if isinstance(e, ast.Compare) and len(e.ops) == 1 and type(e.ops[0]) in _NEGOP:
+        neg = ast.Compare(left=e.left, ops=[_NEGOP[type(e.ops[0])]()], comparators=e.comparators)
+        tn = norm(neg)
+        if tn in val:
+            return not val[tn]
+    if isinstance(e, ast.UnaryOp) and isinstance(e.op, ast.Not):
+        v = eval3(e.operand, val)
+        return None if v is None else not v
+    if isinstance(e, ast.BoolOp):
+        vs = [eval3(x, val) for x in e.values]
+        if isinstance(e.op, ast.And):
+            if any(v is False for v in vs):
+                return False
+            return True if all(v is True for v in vs) else None
+        if any(v is True for v in vs):
+            return True
+        return False if all(v is False for v in vs) else None
+    if isinstance(e, ast.Constant):
+        return bool(e.value)
+    return None
+
+
+def reach_under(cfg, srcs, val, avoid=()):
+    """nodes reachable from srcs when every test whose value `val` determines follows only that edge"""
+    def ef(a, b, l):
+        if a.kind == 'test' and l in ('T', 'F') and a.expr is not None:
+            v = eval3(a.expr, val)
+            if v is True and l == 'F':
+                return False
+            if v is False and l == 'T':
+                return False
+        return True
+    return cfg.reach(srcs, avoid=avoid, edge_filter=ef)
+
+
+def requires(chk, rule, key, cfg, mod, targets, needed, detail=''):
+    """obligations: no node of `targets` is reachable from the function entry when one predicate of `needed`
+    ({text: bool}) has the opposite value, and some target is reachable when all have the needed value"""
+    targets = [t for t in targets if t is not None]
+    chk.ob(rule, key + '/present', bool(targets), mod.rel, 'the guarded statement was not found. ' + detail)
+    if not targets:
+        return
+    for atom, v in sorted(needed.items()):
+        seen = reach_under(cfg, [cfg.entry], {atom: (not v)})
+        hit = [t for t in targets if t in seen]
+        chk.ob(rule, '%s/only-when %s%s' % (key, '' if v else 'not ', atom), not hit,
+               where(mod, hit[0].ast) if hit else where(mod, targets[0].ast),
+               'reachable although `%s` is %s. %s' % (atom, not v, detail))
+    seen = reach_under(cfg, [cfg.entry], dict(needed))
+    chk.ob(rule, '%s/reachable-when-all-hold' % key, any(t in seen for t in targets), where(mod, targets[0].ast),
+           'not reachable when %s. %s' % (needed, detail))
+
+
+# ---------------------------------------------------------------------------------------------------------------------
+# names, attributes and results exist where they are used
+DEFINITE_ASSIGNMENT_AUDIT = {
+    ('pysmi/reader/zipreader.py', '_readZipFile', 'dataObj'):
+        'the reference chain built by _readZipDirectory is never empty and its first element always carries the '
+        'archive file object, so the loop body runs and dataObj is assigned before the second iteration reads it',
+    ('pysmi/reader/zipreader.py', '_readZipFile', 'mtime'): 'loop variable of the never-empty reference chain',
+}
+
+
+def wellformedness(chk, rule, rels, floor=None):
+    """(a) every local variable is assigned on every path to each of its uses; (b) every self.<attr> that is read is
+    assigned somewhere in the class hierarchy; (c) a function whose result some caller uses returns a value on every
+    path that returns.  A violation means NameError / AttributeError / a None where a value is expected on the path
+    concerned - a foreign exception out of the behaviour the property describes."""
+    from vt import defuse
+    from vt.cfg import CFG
+    model = chk.model
+    chk.doc(rule, 'in %s: definite assignment of locals (CFG dataflow; exceptional edges carry the state before the '
+                  'statement; sys.exit does not fall through), self attributes read are assigned in the class '
+                  'hierarchy, functions/methods whose result is used (resolved by name inside the package; '
+                  'handlersTable part handlers) return a value on every returning path' % ', '.join(
+                      sorted(set(r.rsplit('/', 1)[0] for r in rels))))
+    nfun = 0
+    for rel in rels:
+        mod = model.mod(rel, required=False)
+        if mod is None:
+            continue
+        scopes = [('<module>', mod.tree)]
+        mglobals = defuse.module_level_names(mod.tree)
+        encl = {}
+        for node in ast.walk(mod.tree):
+            if isinstance(node, (ast.FunctionDef, ast.AsyncFunctionDef)):
+                scopes.append((node.name, node))
+                # names of enclosing function scopes (closures) and class-body names are visible or resolved elsewhere
+                a, names = getattr(node, '_parent', None), set()
+                while a is not None:
+                    if isinstance(a, (ast.FunctionDef, ast.AsyncFunctionDef)):
+                        names |= set(x.arg for x in a.args.args + a.args.kwonlyargs)
+                        if a.args.vararg:
+                            names.add(a.args.vararg.arg)
+                        if a.args.kwarg:
+                            names.add(a.args.kwarg.arg)
+                        names |= set(n2.id for n2 in ast.walk(a) if isinstance(n2, ast.Name) and
+                                     isinstance(n2.ctx, ast.Store))
+                        names |= set(n2.name for n2 in ast.walk(a) if isinstance(n2, (ast.FunctionDef, ast.ClassDef)))
+                    a = getattr(a, '_parent', None)
+                encl[id(node)] = names
+        for name, fn in scopes:
+            nfun += 1
+            bad = []
+            for var, use in defuse.possibly_undefined(fn, module_globals=mglobals, enclosing=encl.get(id(fn), ())):
+                if (rel, name, var) in DEFINITE_ASSIGNMENT_AUDIT:
+                    continue
+                bad.append((var, use))
+            chk.ob(rule, '%s:%s/locals-assigned-before-use%s' % (rel.split('/', 1)[-1], name, (
+                '@%d' % fn.lineno) if name != '<module>' and sum(1 for n2, _ in scopes if n2 == name) > 1 else ''),
+                not bad, where(mod, bad[0][1]) if bad else where(mod, fn) if name != '<module>' else rel,
+                'name `%s` can be read before it is assigned, or is defined nowhere (NameError/UnboundLocalError)' % (
+                    bad[0][0] if bad else ''))
+        for c in mod.classes():
+            ci = model.cls(rel, c.name)
+            r_ = defuse.undefined_self_attributes(model, ci)
+            if r_ is None:
+                continue
+            chk.ob(rule, '%s:%s/self-attributes-defined' % (rel.split('/', 1)[-1], c.name), not r_,
+                   where(mod, r_[0][1]) if r_ else where(mod, c),
+                   'self.%s is read but never assigned in %s or its bases (AttributeError)' % (
+                       r_[0][0] if r_ else '', c.name))
+    # (c) results that are used
+    defs = {}
+    for rel2, mod2 in model.modules.items():
+        for c in mod2.classes():
+            for mname, fn in model.cls(rel2, c.name).methods.items():
+                defs.setdefault(mname, []).append((rel2, c.name, fn))
+        for fn in mod2.functions():
+            defs.setdefault(fn.name, []).append((rel2, None, fn))
+    used = set()
+    for rel2, mod2 in model.modules.items():
+        for call in ast.walk(mod2.tree):
+            if not isinstance(call, ast.Call):
+                continue
+            par = getattr(call, '_parent', None)
+            if isinstance(par, (ast.Expr, ast.Return)):
+                continue
+            f = call.func
+            nm = f.attr if isinstance(f, ast.Attribute) else f.id if isinstance(f, ast.Name) else None
+            if nm in defs:
+                used.add(nm)
+    for nm in sorted(used):
+        for rel2, cname, fn in defs[nm]:
+            if rel2 not in rels:
+                continue
+            r_ = defuse.returns_none_somewhere(fn)
+            chk.ob(rule, '%s:%s.%s/returns-a-value' % (rel2.split('/', 1)[-1], cname or '', nm), not r_,
+                   where(model.mod(rel2), r_[0]) if r_ else where(model.mod(rel2), fn),
+                   'callers use the result of %s() but this path returns None' % nm)
+    if floor:
+        chk.floor(rule, floor, 'scopes, classes and used results')
+    return nfun
+
+
+def part_handlers_return(chk, rule, rel, cname):
+    """handlers reached through prepData (every handlersTable entry that is not a top-level clause) hand their result
+    to the enclosing clause: they return a value on every path"""
+    from vt import defuse
+    from rules import ir
+    model = chk.model
+    ci = model.cls(rel, cname)
+    tbl = ir.handlers_table(ci)
+    n = 0
+    for tag, h in sorted(tbl.items()):
+        if tag in ir.CLAUSES:
+            continue
+        o, fn = ci.find_method(h)
+        if fn is None:
+            chk.ob(rule, '%s.%s/present' % (cname, h), False, rel, 'handler %s of %s is missing' % (h, tag))
+            continue
+        r_ = defuse.returns_none_somewhere(fn)
+        n += 1
+        chk.ob(rule, '%s.%s/returns-a-value' % (cname, h), not r_, where(o.mod, r_[0]) if r_ else where(o.mod, fn),
+               'the value of a %s part is taken from this handler by prepData, but this path returns None' % tag)
+    return n
